@@ -1699,6 +1699,14 @@ func (x *c07ctx) r5() {
 				case *ssa.Call:
 					good := x.createdWithSessID(y, msg, 0)
 					c.Req(good, key+":created-id", r5, p.InstrPos(y), "the entry created on a miss does not get this datagram's SessionID (replies are tagged with a foreign ID)")
+				case *ssa.UnOp:
+					// an entry remembered in a field (a "last session" cache, a free list …) is neither the
+					// table's current entry for this ID nor a fresh one: it may be closed or belong to another ID
+					if _, isFld := y.X.(*ssa.FieldAddr); isFld && y.Op == token.MUL {
+						c.Bad(key+":source", r5, p.InstrPos(y), "the dispatched entry is taken from remembered state instead of the table lookup (or creation) under this datagram's SessionID: a session that was closed, or another session, can receive the datagram")
+						continue
+					}
+					c.Undecided(key+":source", r5, pos, "dispatched entry defined by an unrecognised construct")
 				default:
 					c.Undecided(key+":source", r5, pos, "dispatched entry defined by an unrecognised construct")
 				}
